@@ -214,7 +214,18 @@ class HamiltonianChain(MarkovChain):
         for i in range(self.n_parameters):
             delta = zeros(self.n_parameters) + 1
             delta[i] += 1e-5
-            G[i] = (self.posterior(t * delta) * self.inv_temp - p) / (t[i] * 1e-5)
+            t_pert = t * delta
+            dt = t[i] * 1e-5
+            if self.bounds is not None:
+                # never evaluate the posterior outside the bounds: step to the
+                # other side, or (box narrower than the step) to the farther wall
+                lwr, upr = self.bounds.lower[i], self.bounds.upper[i]
+                if not lwr <= t_pert[i] <= upr:
+                    t_pert[i] = t[i] - dt
+                    if not lwr <= t_pert[i] <= upr:
+                        t_pert[i] = lwr if (t[i] - lwr) > (upr - t[i]) else upr
+                    dt = t_pert[i] - t[i]
+            G[i] = (self.posterior(t_pert) * self.inv_temp - p) / dt
         return G
 
     def get_last(self) -> ndarray:
